@@ -168,7 +168,7 @@ def gen_ops(rng, n, tier):
             b = list(a)
         else:
             b = rand_date(rng)
-        cases.append({'a': a, 'b': b, 'edit': rng.choice([None, None, 'fields', 'copy']), 'n': rng.choice([0, 1, 59, 60, 3600, 86400, 86399, 31536000, -1, -86400, rng.randint(-10 ** 7, 10 ** 8)])})
+        cases.append({'a': a, 'b': b, 'edit': rng.choice([None, None, 'fields', 'copy']), 'zones': rng.choice([[0, 0], [0, 0], [2, 0], [-3, 2], [1, 1]]), 'n': rng.choice([0, 1, 59, 60, 3600, 86400, 86399, 31536000, -1, -86400, rng.randint(-10 ** 7, 10 ** 8)])})
     return cases
 
 
@@ -178,11 +178,12 @@ def to_secs(f):
 
 def run_ops(case):
     from tracklib.core import ObsTime
-    a = ObsTime(*case['a']); b = ObsTime(*case['b'])
-    a0 = ObsTime(*(case['a'][:6] + [0]))
+    za, zb = case.get('zones', [0, 0])            # a time-zone label on the timestamp: the calendar fields are what is converted, compared and shifted
+    a = ObsTime(*case['a'], za); b = ObsTime(*case['b'], zb)
+    a0 = ObsTime(*(case['a'][:6] + [0]), za)
     if case.get('edit'):
         # the same timestamps reached by editing the public calendar fields of objects that were already converted, compared and shifted
-        a = ObsTime(*case['b']); a0 = ObsTime(*case['b'])
+        a = ObsTime(*case['b'], za); a0 = ObsTime(*case['b'], za)
         for o in (a, a0):
             o.toAbsTime(); o.addSec(1); o - b; o < b
         a.year, a.month, a.day, a.hour, a.min, a.sec, a.ms = case['a']
